@@ -18,9 +18,9 @@ import (
 	"github.com/gotid/god/lib/timex"
 )
 
-// events: [0,name,id,kind,m] Begin of a Do* call (kind 0 Do, 1 DoWithAcceptable, 2 DoWithFallback,
+// events: [0,name,id,kind,m] Begin of a Do* call (kind%4: 0 Do, 1 DoWithAcceptable, 2 DoWithFallback,
 // 3 DoWithFallbackAcceptable; m = coin*2^53) | [1,id,outcome] its req returns (0 nil, 1 acceptable
-// error, 2 unacceptable error, 3 panic) | [2,name,id,m] Allow | [3,id] promise.Accept |
+// error, 2 unacceptable error, 3 panic(string), 4 panic(nil)) | [2,name,id,m] Allow | [3,id] promise.Accept |
 // [4,id] promise.Reject | [5,dt] advance the virtual clock.
 type verifCase struct {
 	Events [][]int64 `json:"events"`
@@ -38,16 +38,18 @@ var (
 )
 
 type verifCall struct {
-	name     int64
-	started  chan struct{}
-	finish   chan int64
-	done     chan struct{}
-	ranReq   bool
-	ended    bool
-	fbArg    error
-	fbRan    bool
-	ret      error
-	panicked any
+	name      int64
+	started   chan struct{}
+	finish    chan int64
+	done      chan struct{}
+	ranReq    bool
+	ended     bool
+	fbArg     error
+	fbRan     bool
+	ret       error
+	panicked  any
+	completed bool // the Do* call returned normally
+	unwound   bool // ... or a panic unwound through it (value in panicked, possibly nil)
 }
 
 // TestVerifDriver drives named breakers (registry) with interleaved Begin/End events, a scripted
@@ -90,7 +92,11 @@ func TestVerifDriver(t *testing.T) {
 			var gb *googleBreaker
 			switch ev[0] {
 			case 0:
-				name, id, kind := ev[1], ev[2], ev[3]
+				// kind = variant + 4*predicate: variant 0 Do, 1 DoWithAcceptable, 2 DoWithFallback,
+				// 3 DoWithFallbackAcceptable; predicate (used by variants 1 and 3 only) 0 nil or the
+				// acceptable error, 1 REJECTS nil (judges something else: only the acceptable error
+				// passes), 2 accepts every error, 3 accepts nothing
+				name, id, kind, pred := ev[1], ev[2], ev[3]%4, ev[3]/4
 				b, g, src := get(name)
 				gb = g
 				src.next = ev[4]
@@ -106,6 +112,8 @@ func TestVerifDriver(t *testing.T) {
 						return errVerifUnacceptable
 					case 3:
 						panic("verif panic")
+					case 4:
+						panic(nil) // recover() yields nil for it (go.mod: go 1.19)
 					}
 					return nil
 				}
@@ -114,10 +122,23 @@ func TestVerifDriver(t *testing.T) {
 					call.fbArg = err
 					return errVerifFallback
 				}
-				acceptable := func(err error) bool { return err == nil || err == errVerifAcceptable }
+				acceptable := func(err error) bool {
+					switch pred {
+					case 1:
+						return err == errVerifAcceptable
+					case 2:
+						return true
+					case 3:
+						return false
+					}
+					return err == nil || err == errVerifAcceptable
+				}
 				go func() {
 					defer close(call.done)
-					defer func() { call.panicked = recover() }()
+					defer func() {
+						call.panicked = recover()
+						call.unwound = !call.completed
+					}()
 					switch kind {
 					case 0:
 						call.ret = b.Do(req)
@@ -128,13 +149,14 @@ func TestVerifDriver(t *testing.T) {
 					case 3:
 						call.ret = b.DoWithFallbackAcceptable(req, fallback, acceptable)
 					}
+					call.completed = true
 				}()
 				select {
 				case <-call.started:
 					code = 1
 				case <-call.done:
 					switch {
-					case call.ranReq || call.panicked != nil:
+					case call.ranReq || call.unwound:
 						code = 99
 					case kind <= 1 && !call.fbRan && call.ret == ErrServiceUnavailable:
 						code = 2
@@ -156,20 +178,24 @@ func TestVerifDriver(t *testing.T) {
 				code = 99
 				switch ev[2] {
 				case 0:
-					if call.ret == nil && call.panicked == nil && !call.fbRan {
+					if call.ret == nil && !call.unwound && !call.fbRan {
 						code = 10
 					}
 				case 1:
-					if call.ret == errVerifAcceptable && call.panicked == nil && !call.fbRan {
+					if call.ret == errVerifAcceptable && !call.unwound && !call.fbRan {
 						code = 11
 					}
 				case 2:
-					if call.ret == errVerifUnacceptable && call.panicked == nil && !call.fbRan {
+					if call.ret == errVerifUnacceptable && !call.unwound && !call.fbRan {
 						code = 12
 					}
 				case 3:
-					if call.panicked == "verif panic" && !call.fbRan {
+					if call.unwound && call.panicked == "verif panic" && !call.fbRan {
 						code = 13
+					}
+				case 4:
+					if call.unwound && call.panicked == nil && !call.fbRan {
+						code = 14
 					}
 				}
 			case 2:
